@@ -2,14 +2,14 @@ SPEC = {
     "id": "C27",
     "props_module": "NDB.Props.C27",
     "corr_modules": ["NDB.Corr.C27"],
-    "theorems": ["C27_order", "C27_equality", "C27_prefix_free", "C27_cmp", "C27_index_key"],
+    "theorems": ["C27_order", "C27_equality", "C27_prefix_free", "C27_cmp", "C27_index_key", "C27_index_key_cmp", "C27_index_key_inj", "C27_index_id_order"],
     "allowed_axioms": [],
     "harness_pkg": "hx_index",
     "harness_bin": "c27",
     "n": {"quick": 6000, "thorough": 120000},
     "trusted_base": [
         "Coq 8.16.1 kernel + vm_compute (no native_compute); coqchk re-check in the thorough tier",
-        "axioms: none (Print Assumptions: Closed under the global context for all five theorems)",
+        "axioms: none (Print Assumptions: Closed under the global context for all eight theorems)",
         "gen/consts.py: tag and escape bytes re-read from ordered_key.rs on every run",
         "hand-written model Index/OrderedKey.v of encode_ordered_value/encode_index_key, tied by the correspondence check "
         "(model evaluated by vm_compute on the harness's inputs; encodings, byte order and value order compared)",
